@@ -123,13 +123,14 @@ def run(ctx):
     return {"cases": cases, "bad": bad, "worker_errs": worker_errs, "coq_errs": coq_errs,
             "coverage": {"evaluations": len(cases), "distinct_nontrivial": nt,
                          "rule": "mala/hmc: random Gaussian programs (2-4 normal sites, means affine in arguments and earlier sites, sigma in {1/2,1,2}, optionally "
-                                 "a nested sub-call), dyadic current values, selections (address, union, path into the sub-call, all, complement, none), step sizes "
+                                 "a nested sub-call, a vectorized sub-call, or one site inside a Cond sub-call with shared-address branches whose hidden branch holds another value), dyadic current values, selections (address, union, path into the sub-call, all, complement, none), step sizes "
                                  "{1/4,1/2,1}, 1-3 leapfrog steps, scripted noise/momentum and accept threshold; log_alpha (read through a state-save proxy), accept bit and "
                                  "final values compared with the exact rational model (tolerance 2e-4; decisions within 1e-3 of the threshold not judged); "
                                  "mh: seeded dyadic-categorical program, scripted threshold, accept rule and select; mixture-regenerate: regenerate (the move mh proposes with, and whose weight it accepts with) on "
                                  "mixture-shaped programs - indicator site, branch-argument site, Cond with shared-address branches - for selections of the indicator, the argument, both, with argument "
                                  "changes that flip the branch: weight, frame and discard judged by the specification (Model/Corr.v regen_spec); non-trivial = distinct case with a non-empty selection",
                          "histogram": {"kinds": Counter(c["kind"] for c in cases),
+                                       "site_in_cond": sum(1 for c in cases if any("cond" in t for t in c.get("model", {}).get("sites", []))),
                                        "selections": Counter(c["sel"][0] for c in cases),
                                        "accepted": Counter(str(c.get("accept")) for c in cases),
                                        "errors": Counter(c.get("err", "")[:70] for c in cases if "err" in c)},
